@@ -321,7 +321,14 @@ class AttributeMaybeDefinedVisitor(BaseAnalysisVisitor[str]):
     def visit_register_op(self, op: RegisterOp) -> tuple[set[str], set[str]]:
         if isinstance(op, SetAttr) and op.obj is self.self_reg:
             return {op.attr}, set()
-        if isinstance(op, Call) and op.fn.class_name and op.fn.name == "__init__":
+        if (
+            isinstance(op, Call)
+            and op.fn.class_name
+            and op.fn.name == "__init__"
+            # 'Base.__init__(other)' initializes some other object.
+            and op.args
+            and op.args[0] is self.self_reg
+        ):
             return attributes_maybe_initialized_by_init_call(op), set()
         return set(), set()
 
@@ -370,7 +377,14 @@ class AttributeMaybeUndefinedVisitor(BaseAnalysisVisitor[str]):
     def visit_register_op(self, op: RegisterOp) -> tuple[set[str], set[str]]:
         if isinstance(op, SetAttr) and op.obj is self.self_reg:
             return set(), {op.attr}
-        if isinstance(op, Call) and op.fn.class_name and op.fn.name == "__init__":
+        if (
+            isinstance(op, Call)
+            and op.fn.class_name
+            and op.fn.name == "__init__"
+            # 'Base.__init__(other)' initializes some other object.
+            and op.args
+            and op.args[0] is self.self_reg
+        ):
             return set(), attributes_initialized_by_init_call(op)
         return set(), set()
 
